@@ -351,13 +351,20 @@ def declaredBounds (a : Args) : Bounds :=
   | .magnitude, none => some (some (.num .float (.fin 0)), some (.num .float (.fin 1)))
   | _, none => none
 
+/-- the item type of a List: `item_type` when it is given, else what the deprecated alias
+`class_` names -/
+def declaredItemType (a : Args) : Option (List Nat) :=
+  match a.itemType with
+  | some it => it
+  | none => a.classAlias
+
 /-- the declared constraints, for a declared length `n` -/
 def declaredCfg (a : Args) (n : Nat) : Cfg :=
   { ptype := a.ptype, allowNone := declaredAllowNone a, bounds := declaredBounds a,
     incl := a.incl.getD (true, true), softbounds := (a.softbounds.getD none), step := a.step, length := n,
     regex := a.regex,
     lenBounds := a.lenBounds.getD (some (some 0, none)),           -- List: at least 0 items
-    itemType := a.itemType, isInstance := a.isInstance.getD true,
+    itemType := declaredItemType a, isInstance := a.isInstance.getD true,
     objects := a.objects.getD [],
     checkOnSet := a.checkOnSet.getD ((a.objects.getD []).length != 0),   -- checked iff objects were given
     classes := (match a.ptype with | .dict => [PyVal.cDict] | _ => a.classes),
